@@ -38,7 +38,7 @@ def exc_name(e: BaseException) -> str:
 
 def run_program(files: dict, flags, approved, *, pyproject: str | None = PYPROJECT,
                 format_command: str | None = None, ensure_imports: bool = True,
-                keep_dir: bool = False, hash_length: int | None = None) -> dict:
+                keep_dir: bool = False, hash_length: int | None = None, spy: bool = False) -> dict:
     """files: name -> text (all at top level of the project).  Returns observables."""
     _config, _problems, apply_all, DiscStorage, Flags, snapshot_env, ChangeRecorder = _imports()
     common.scrub_process_env()
@@ -128,7 +128,10 @@ def run_program(files: dict, flags, approved, *, pyproject: str | None = PYPROJE
                         used = [c for c in changes if c.flag in set(approved)]
                         if used:
                             rec = ChangeRecorder()
-                            apply_all(used, rec)
+                            if spy:
+                                out["spy"] = _spy_apply_all(apply_all, used, rec)
+                            else:
+                                apply_all(used, rec)
                             if ensure_imports:
                                 from inline_snapshot._code_repr import used_hasrepr
                                 from inline_snapshot._find_external import ensure_import
@@ -165,6 +168,37 @@ def run_program(files: dict, flags, approved, *, pyproject: str | None = PYPROJE
         if not keep_dir:
             common.rmtree(d)
     return out
+
+
+def _pos(node):
+    return [type(node).__name__, getattr(node, "lineno", None), getattr(node, "col_offset", None),
+            getattr(node, "end_lineno", None), getattr(node, "end_col_offset", None)]
+
+
+def _spy_apply_all(apply_all, used, rec):
+    """run the real apply_all and observe which changes it goes on with after its own filtering:
+    the `Replace`s whose `apply` is called and the calls of `generic_sequence_update` (container, deleted
+    element indices, insert positions).  Nothing of the implementation is replaced, only wrapped."""
+    import inline_snapshot._change as CH
+    log = {"given": [], "replaced": [], "seq": []}
+    for c in used:
+        log["given"].append([type(c).__name__, c.flag, _pos(getattr(c, "node", None))])
+    orig_apply, orig_gsu = CH.Replace.apply, CH.generic_sequence_update
+
+    def spy_apply(self, recorder):
+        log["replaced"].append(_pos(self.node))
+        return orig_apply(self, recorder)
+
+    def spy_gsu(source, parent, brace_tokens, parent_elements, to_insert, recorder):
+        log["seq"].append({"parent": _pos(parent), "deleted": [i for i, e in enumerate(parent_elements) if e is None],
+                           "n": len(parent_elements), "insert_at": sorted(k for k, v in dict(to_insert).items() if v)})
+        return orig_gsu(source, parent, brace_tokens, parent_elements, to_insert, recorder)
+    CH.Replace.apply, CH.generic_sequence_update = spy_apply, spy_gsu
+    try:
+        apply_all(used, rec)
+    finally:
+        CH.Replace.apply, CH.generic_sequence_update = orig_apply, orig_gsu
+    return log
 
 
 def snapshot_args(text: str, name: str = "snapshot"):
